@@ -321,6 +321,10 @@ func c09Cases(rng *rand.Rand) []c09Case {
 	srcs := append([]string{}, c08Fixed...)
 	srcs = append(srcs, `Inc(1) + Inc(2)`, `Half(3) * 2`, `I + 1`, `S + S2`, `1 + 2 - 3`, `(I - 1) + Inc(4)`, `Twice(I)`, `PtrM(2)`, `St.Get()`, `P.Get() + St.Next.Get()`,
 		`MI["zz"] + 1`, `MA["nope"]`, `Undefined`, `Undefined?.x`, `{"a": 1}.b`, `AA[1:2]`, `AI[2:]`, `map(AA, {#})`, `filter(AA, {# != nil})[0]`)
+	// runs that FAIL while looking a member up on a pointer / a map that holds pointers: the error returned on an equal, separately
+	// allocated environment has to be the same text (nothing address-like may reach it)
+	srcs = append(srcs, `P.Zz`, `P.Zz()`, `P.Next.Zz`, `St.Next.Zz()`, `P.Next.Zz + 1`, `MA.Zz()`, `MA.k.z`, `Any.zz`, `[P][0].Zz`, `{"p": P}.p.Zz`, `{"p": P}.Zz()`, `{"p": P, "q": St.Next}.zz.y`,
+		`[P, St.Next][1].Zz()`, `map([P], {#.Zz})`, `filter([P, P.Next], {#.Zz > 1})`, `{"m": {"p": P}}.m.Zz()`, `P.X.Zz`, `St.Zz`, `St.Zz()`, `(B ? P : St.Next).Zz`)
 	ex := exhaustiveExprs(1)
 	rng.Shuffle(len(ex), func(i, j int) { ex[i], ex[j] = ex[j], ex[i] })
 	if len(ex) > nEx {
